@@ -88,7 +88,7 @@ def gen_cases(tier):
                         pairs.append((li, ti))
             for li, ti in pairs:
                 for form in ("absolute", "relative", "dot-relative"):
-                    for variant in ("other-names", "same-property", "same-section", "same-both"):
+                    for variant in ("other-names", "same-property", "same-section", "same-both", "target-kinds-share-a-name"):
                         for mech in ("link", "include", "include-whole-file"):
                             if mech != "link" and form != "absolute":
                                 continue
@@ -141,6 +141,12 @@ def build_case(case, scratch):
                     path = "./" + path
             pre[li]["attrs"]["link"] = path
         tspec = pre[ti]
+        if case["variant"] == "target-kinds-share-a-name" and tspec["sections"]:
+            # Sections and Properties have separate name spaces: the target owns a Property named like one of its
+            # own sub-Sections (the linker shares no child name with it, so the restoration law applies)
+            nm = tspec["sections"][0]["name"]
+            if not any(x["name"] == nm for x in tspec["properties"]):
+                tspec["properties"].append({"name": nm, "values": ["twin"], "dtype": "string"})
         if case["variant"] in ("same-property", "same-both") and tspec["properties"]:
             tp = tspec["properties"][0]
             if not any(x["name"] == tp["name"] for x in pre[li]["properties"]):
@@ -240,7 +246,7 @@ def _run(case, scratch):
         fail("building-the-document-raises", "%s: %s" % (type(exc).__name__, exc))
         return {"failures": fails, "outcomes": ["build-raises"], "nontrivial": 1, "execs": 1}
     linkers = [l for l, _ in links]
-    shared_names = case["variant"] != "other-names"
+    shared_names = case["variant"] not in ("other-names", "target-kinds-share-a-name")
     for k, (l, t) in enumerate(links):
         ts, tp = target_children(case, links, include_doc, k)
         ls, lp = tree.children(l)
